@@ -22,6 +22,26 @@ KINDS = ["request-abort", "request-connection", "runner-raises", "params-raise",
          "request-unsuccessful"]
 
 
+def _quiet_abandoned_coroutines():
+    """executors still suspended when a failed race is torn down are closed by the garbage collector; their `finally` blocks then
+    reset a ContextVar outside its context, which Python reports on stderr as "Exception ignored in: <coroutine …>" — noise, not a verdict"""
+    import sys
+
+    default = sys.unraisablehook
+
+    def hook(u):
+        if "was created in a different Context" in str(u.exc_value) or "There is no current event loop" in str(u.exc_value):
+            return
+        default(u)
+
+    if getattr(sys.unraisablehook, "__name__", "") != "hook":
+        sys.unraisablehook = hook
+
+
+# faults that make an executor's future fail (the worker reports them at its next wake-up and stays where it is)
+EXECUTOR_KINDS = {"request-abort", "request-unsuccessful", "request-connection", "runner-raises", "params-raise"}
+
+
 def gen(ctx):
     rng = ctx.rng
     for i in range(ctx.budget):
@@ -80,6 +100,7 @@ def gen(ctx):
 def run(ctx, case):
     from harness import sim_race
 
+    _quiet_abandoned_coroutines()
     sc = dict(case["scenario"])
     sc["faults"] = {ast.literal_eval(k): v for k, v in sc.get("faults", {}).items()}
     tmp = tempfile.mkdtemp(prefix="c09-")
@@ -154,6 +175,15 @@ def run(ctx, case):
         elif not fired:
             if replies[:1] != ["Success"] or not stored_results or len(sim.summaries) != 1:
                 ctx.fail("fault-free:not-success", "a race without any fault did not end with Success + stored results + one summary", ["Success", True, 1], [replies, stored_results, len(sim.summaries)])
+        # ---------------- a worker whose executor failed never moves on, so no barrier opens after the failure (Lean: C09.failed_executor_blocks_completion) ----
+        if fired and kind in EXECUTOR_KINDS:
+            late = [[e["t"], type(m).__name__] for e in sim.trace if e["ev"] in ("deliver", "wakeup") and e.get("t", 0.0) > sim.fault_time
+                    and (e.get("dst") if e["ev"] == "deliver" else e.get("actor")) == "driver"
+                    for _dst, m in e.get("out", []) if type(m).__name__ in ("TaskFinished", "BenchmarkComplete")]
+            if late:
+                ctx.fail(cls + ":step-completed-after-executor-failure", f"an executor failed at t={sim.fault_time}, yet the driver afterwards declared a step "
+                         "(or the benchmark) complete: the failed worker must never reach its join point", [], late[:4])
+            ctx.count("executor-failures-checked-for-late-completion")
         ctx.count("kind:" + kind + (":fired" if fired else ":not-fired"))
         ctx.sig([kind, sorted(tags), fired, before_completion], nontrivial=True)
     finally:
